@@ -2,54 +2,503 @@
 #![allow(unused, dead_code, non_snake_case)]
 use super::*;
 use crate::text::verif_v::{mk_ciphertext, mk_plaintext};
+use crate::valcheck::ValCheck;
+
+pub(crate) fn mk_evaluator(context: Arc<HeContext>) -> Evaluator { Evaluator { context } }
 
 #[cfg(kani)]
 mod proofs {
     use super::*;
+    use crate::verif_v::lits;
 
-    #[kani::proof]
-    #[kani::unwind(6)]
-    fn r1_a_build_forget() {
-        let ctx = crate::verif_v::lits::ctx_bfv_n2_q13_t3();
-        assert!(ctx.using_keyswitching() == false);
-        std::mem::forget(ctx);
+    pub(crate) const Q1: u64 = 97;
+    /// symbolic canonical ciphertext data for N=2, ONE prime (97): SIZE polynomials = SIZE*2 residues
+    pub(crate) fn sym1<const L: usize>() -> [u64; L] {
+        let a: [u8; L] = kani::any();
+        let mut v = [0u64; L]; let mut i = 0;
+        while i < L { kani::assume((a[i] as u64) < Q1); v[i] = a[i] as u64; i += 1; }
+        v
     }
-    #[kani::proof]
-    #[kani::unwind(6)]
-    #[kani::stub(crate::context::HeContext::get_context_data, crate::context::verif_v::get_context_data_stub)]
-    fn r1_b_lookup_forget() {
-        let ctx = crate::verif_v::lits::ctx_bfv_n2_q13_t3();
-        let cd = ctx.first_context_data().unwrap();
-        assert!(cd.chain_index() == 0);
-        std::mem::forget(cd);
-        std::mem::forget(ctx);
+    pub(crate) fn ct1<const L: usize>(d: &[u64; L], pid: ParmsID, ntt: bool, cf: u64, scale: f64) -> Ciphertext {
+        mk_ciphertext(L / 2, 1, 2, d.to_vec(), pid, scale, ntt, cf)
     }
+
+    fn addsub_case<const L1: usize, const L2: usize>(ev: &Evaluator, pid: ParmsID, ntt: bool) {
+        let a = sym1::<L1>(); let b = sym1::<L2>();
+        let c1 = ct1(&a, pid, ntt, 1, 1.0); let c2 = ct1(&b, pid, ntt, 1, 1.0);
+        let lmax = if L1 > L2 { L1 } else { L2 };
+        let p: usize = kani::any(); kani::assume(p < lmax);
+        let q = Q1;
+        let av = if p < L1 { a[p] } else { 0 }; let bv = if p < L2 { b[p] } else { 0 };
+        let sub: bool = kani::any();
+        let mut r = c1.clone();
+        if sub { ev.sub_inplace(&mut r, &c2); } else { ev.add_inplace(&mut r, &c2); }
+        kani::cover!(sub && p >= L1 && bv != 0);
+        assert!(r.size() == lmax / 2 && r.data().len() == lmax && r.coeff_modulus_size() == 1 && r.poly_modulus_degree() == 2);
+        assert!(*r.parms_id() == pid && r.is_ntt_form() == ntt && r.correction_factor() == 1 && r.scale() == 1.0);
+        let e = if sub { (av + q - bv) % q } else { (av + bv) % q };
+        assert!(r.data()[p] == e);
+        assert!(c2.data()[if p < L2 { p } else { 0 }] == b[if p < L2 { p } else { 0 }]);
+    }
+
+    // @harness id=C02 tier=quick unwind=10 timeout=1500 fs=4096 
+    // @desc Evaluator::add_inplace / sub_inplace on BFV ciphertexts of sizes (2,2): every residue of the result is a+b resp. a-b of the zero-extended operands (so phase_out = phase_1 +- phase_2 for every secret key), size = max, level/form/scale/correction factor preserved, second operand unchanged
+    // @bounds BFV N=2, q={97}, t=3 (literal context of the real HeContext::new); all canonical operand residues; coefficient or NTT representation symbolic; add or sub symbolic; one residue position checked symbolically
+    // @funcs Evaluator::translate_inplace, Evaluator::add_inplace, Evaluator::sub_inplace, Evaluator::check_ciphertext, Ciphertext::is_valid_for, Ciphertext::resize, polysmallmod::add_inplace_ps, polysmallmod::sub_inplace_ps
+    // @stubs HeContext::get_context_data -> linear search over the literal chain (HashMap lookup outside the claim); alloc::sync::Arc::drop_slow -> no-op (memory reclamation outside the claim)
     #[kani::proof]
-    #[kani::unwind(6)]
     #[kani::stub(crate::context::HeContext::get_context_data, crate::context::verif_v::get_context_data_stub)]
     #[kani::stub(alloc::sync::Arc::drop_slow, crate::verif_v::arc_drop_slow_noop)]
-    fn r1_c_lookup_drop() {
-        let ctx = crate::verif_v::lits::ctx_bfv_n2_q13_t3();
-        let cd = ctx.first_context_data().unwrap();
-        assert!(cd.chain_index() == 0);
-        drop(cd);
-        std::mem::forget(ctx);
-    }
-    #[kani::proof]
-    #[kani::unwind(6)]
-    #[kani::stub(crate::context::HeContext::get_context_data, crate::context::verif_v::get_context_data_stub)]
-    #[kani::stub(alloc::sync::Arc::drop_slow, crate::verif_v::arc_drop_slow_noop)]
-    fn r1_negate() {
-        let ctx = crate::verif_v::lits::ctx_bfv_n2_q13_t3();
-        let ev = Evaluator { context: ctx.clone() };
+    fn c02_add_sub_sizes_2_2() {
+        let ctx = lits::ctx_bfv_n2_1p();
+        let ev = mk_evaluator(ctx.clone());
         let pid = *ctx.first_parms_id();
-        let d: [u8; 4] = kani::any();
-        kani::assume(d[0] < 13 && d[1] < 13 && d[2] < 13 && d[3] < 13);
-        let mut ct = mk_ciphertext(2, 1, 2, vec![d[0] as u64, d[1] as u64, d[2] as u64, d[3] as u64], pid, 1.0, false, 1);
-        ev.negate_inplace(&mut ct);
-        assert!(ct.data()[0] == (13 - d[0] as u64) % 13);
-        assert!(ct.data()[3] == (13 - d[3] as u64) % 13);
-        std::mem::forget(ev); std::mem::forget(ctx); std::mem::forget(ct);
+        addsub_case::<4, 4>(&ev, pid, kani::any());
+        std::mem::forget(ev); std::mem::forget(ctx);
+    }
+
+    // @harness id=C02 tier=quick unwind=10 timeout=1500 fs=4096 kf=sub_larger_second_operand
+    // @desc Evaluator::add_inplace / sub_inplace on BFV ciphertexts of sizes (2,3): every residue of the result is a+b resp. a-b of the zero-extended operands (so phase_out = phase_1 +- phase_2 for every secret key), size = max, level/form/scale/correction factor preserved, second operand unchanged
+    // @bounds BFV N=2, q={97}, t=3 (literal context of the real HeContext::new); all canonical operand residues; coefficient or NTT representation symbolic; add or sub symbolic; one residue position checked symbolically
+    // @funcs Evaluator::translate_inplace, Evaluator::add_inplace, Evaluator::sub_inplace, Evaluator::check_ciphertext, Ciphertext::is_valid_for, Ciphertext::resize, polysmallmod::add_inplace_ps, polysmallmod::sub_inplace_ps
+    // @stubs HeContext::get_context_data -> linear search over the literal chain (HashMap lookup outside the claim); alloc::sync::Arc::drop_slow -> no-op (memory reclamation outside the claim)
+    #[kani::proof]
+    #[kani::stub(crate::context::HeContext::get_context_data, crate::context::verif_v::get_context_data_stub)]
+    #[kani::stub(alloc::sync::Arc::drop_slow, crate::verif_v::arc_drop_slow_noop)]
+    fn c02_add_sub_sizes_2_3() {
+        let ctx = lits::ctx_bfv_n2_1p();
+        let ev = mk_evaluator(ctx.clone());
+        let pid = *ctx.first_parms_id();
+        addsub_case::<4, 6>(&ev, pid, kani::any());
+        std::mem::forget(ev); std::mem::forget(ctx);
+    }
+
+    // @harness id=C02 tier=quick unwind=10 timeout=1500 fs=4096 
+    // @desc Evaluator::add_inplace / sub_inplace on BFV ciphertexts of sizes (3,2): every residue of the result is a+b resp. a-b of the zero-extended operands (so phase_out = phase_1 +- phase_2 for every secret key), size = max, level/form/scale/correction factor preserved, second operand unchanged
+    // @bounds BFV N=2, q={97}, t=3 (literal context of the real HeContext::new); all canonical operand residues; coefficient or NTT representation symbolic; add or sub symbolic; one residue position checked symbolically
+    // @funcs Evaluator::translate_inplace, Evaluator::add_inplace, Evaluator::sub_inplace, Evaluator::check_ciphertext, Ciphertext::is_valid_for, Ciphertext::resize, polysmallmod::add_inplace_ps, polysmallmod::sub_inplace_ps
+    // @stubs HeContext::get_context_data -> linear search over the literal chain (HashMap lookup outside the claim); alloc::sync::Arc::drop_slow -> no-op (memory reclamation outside the claim)
+    #[kani::proof]
+    #[kani::stub(crate::context::HeContext::get_context_data, crate::context::verif_v::get_context_data_stub)]
+    #[kani::stub(alloc::sync::Arc::drop_slow, crate::verif_v::arc_drop_slow_noop)]
+    fn c02_add_sub_sizes_3_2() {
+        let ctx = lits::ctx_bfv_n2_1p();
+        let ev = mk_evaluator(ctx.clone());
+        let pid = *ctx.first_parms_id();
+        addsub_case::<6, 4>(&ev, pid, kani::any());
+        std::mem::forget(ev); std::mem::forget(ctx);
+    }
+
+    // @harness id=C02 tier=quick unwind=10 timeout=1500 fs=4096 
+    // @desc Evaluator::add_inplace / sub_inplace on BFV ciphertexts of sizes (3,3): every residue of the result is a+b resp. a-b of the zero-extended operands (so phase_out = phase_1 +- phase_2 for every secret key), size = max, level/form/scale/correction factor preserved, second operand unchanged
+    // @bounds BFV N=2, q={97}, t=3 (literal context of the real HeContext::new); all canonical operand residues; coefficient or NTT representation symbolic; add or sub symbolic; one residue position checked symbolically
+    // @funcs Evaluator::translate_inplace, Evaluator::add_inplace, Evaluator::sub_inplace, Evaluator::check_ciphertext, Ciphertext::is_valid_for, Ciphertext::resize, polysmallmod::add_inplace_ps, polysmallmod::sub_inplace_ps
+    // @stubs HeContext::get_context_data -> linear search over the literal chain (HashMap lookup outside the claim); alloc::sync::Arc::drop_slow -> no-op (memory reclamation outside the claim)
+    #[kani::proof]
+    #[kani::stub(crate::context::HeContext::get_context_data, crate::context::verif_v::get_context_data_stub)]
+    #[kani::stub(alloc::sync::Arc::drop_slow, crate::verif_v::arc_drop_slow_noop)]
+    fn c02_add_sub_sizes_3_3() {
+        let ctx = lits::ctx_bfv_n2_1p();
+        let ev = mk_evaluator(ctx.clone());
+        let pid = *ctx.first_parms_id();
+        addsub_case::<6, 6>(&ev, pid, kani::any());
+        std::mem::forget(ev); std::mem::forget(ctx);
+    }
+
+    // @harness id=C02 tier=quick unwind=10 timeout=1500 fs=4096 kf=sub_larger_second_operand
+    // @desc Evaluator::add_inplace / sub_inplace on BFV ciphertexts of sizes (2,4): every residue of the result is a+b resp. a-b of the zero-extended operands (so phase_out = phase_1 +- phase_2 for every secret key), size = max, level/form/scale/correction factor preserved, second operand unchanged
+    // @bounds BFV N=2, q={97}, t=3 (literal context of the real HeContext::new); all canonical operand residues; coefficient or NTT representation symbolic; add or sub symbolic; one residue position checked symbolically
+    // @funcs Evaluator::translate_inplace, Evaluator::add_inplace, Evaluator::sub_inplace, Evaluator::check_ciphertext, Ciphertext::is_valid_for, Ciphertext::resize, polysmallmod::add_inplace_ps, polysmallmod::sub_inplace_ps
+    // @stubs HeContext::get_context_data -> linear search over the literal chain (HashMap lookup outside the claim); alloc::sync::Arc::drop_slow -> no-op (memory reclamation outside the claim)
+    #[kani::proof]
+    #[kani::stub(crate::context::HeContext::get_context_data, crate::context::verif_v::get_context_data_stub)]
+    #[kani::stub(alloc::sync::Arc::drop_slow, crate::verif_v::arc_drop_slow_noop)]
+    fn c02_add_sub_sizes_2_4() {
+        let ctx = lits::ctx_bfv_n2_1p();
+        let ev = mk_evaluator(ctx.clone());
+        let pid = *ctx.first_parms_id();
+        addsub_case::<4, 8>(&ev, pid, kani::any());
+        std::mem::forget(ev); std::mem::forget(ctx);
+    }
+
+    // ---------------------------------------------------------------- two-prime helpers (q = {97, 113}, N = 2)
+    pub(crate) const QA: [u64; 2] = [97, 113];
+    /// symbolic canonical data, N=2, two primes: SIZE polynomials = SIZE*4 residues, layout [poly][modulus][coeff]
+    pub(crate) fn sym2<const L: usize>() -> [u64; L] {
+        let a: [u8; L] = kani::any();
+        let mut v = [0u64; L]; let mut i = 0;
+        while i < L { kani::assume((a[i] as u64) < QA[(i / 2) % 2]); v[i] = a[i] as u64; i += 1; }
+        v
+    }
+    pub(crate) fn q2(i: usize) -> u64 { QA[(i / 2) % 2] }
+    pub(crate) fn ct2<const L: usize>(d: &[u64; L], pid: ParmsID, ntt: bool, cf: u64, scale: f64) -> Ciphertext {
+        mk_ciphertext(L / 4, 2, 2, d.to_vec(), pid, scale, ntt, cf)
+    }
+
+    // @harness id=C02 tier=quick unwind=10 timeout=900 fs=4096
+    // @desc Evaluator::negate_inplace / negate_new: every residue becomes q - a (0 stays 0), metadata preserved, both forms agree
+    // @bounds BFV N=2, q={97}; sizes 2 and 3; all canonical residues; representation symbolic
+    // @funcs Evaluator::negate_inplace, Evaluator::negate_new, polysmallmod::negate_inplace_ps
+    // @stubs HeContext::get_context_data -> linear search over the literal chain (HashMap lookup outside the claim); alloc::sync::Arc::drop_slow -> no-op (memory reclamation outside the claim)
+    #[kani::proof]
+    #[kani::stub(crate::context::HeContext::get_context_data, crate::context::verif_v::get_context_data_stub)]
+    #[kani::stub(alloc::sync::Arc::drop_slow, crate::verif_v::arc_drop_slow_noop)]
+    fn c02_negate() {
+        let ctx = lits::ctx_bfv_n2_1p();
+        let ev = mk_evaluator(ctx.clone());
+        let pid = *ctx.first_parms_id();
+        let a = sym1::<6>(); let ntt: bool = kani::any();
+        let c = ct1(&a, pid, ntt, 1, 1.0);
+        let r = ev.negate_new(&c);
+        let mut r2 = c.clone(); ev.negate_inplace(&mut r2);
+        let p: usize = kani::any(); kani::assume(p < 6);
+        kani::cover!(a[p] != 0);
+        assert!(r.data()[p] == (Q1 - a[p]) % Q1 && r2.data()[p] == r.data()[p]);
+        assert!(r.size() == 3 && r.is_ntt_form() == ntt && *r.parms_id() == pid && c.data()[p] == a[p]);
+        std::mem::forget(ev); std::mem::forget(ctx);
+    }
+
+    // @harness id=C02 tier=quick unwind=12 timeout=900
+    // @desc balance_correction_factors(f1, f2, t) returns (f, e1, e2) with e1*f1 = e2*f2 = f (mod t) and e1 invertible mod t -- the relation BGV addition needs so that both operands decrypt under the common factor f
+    // @bounds t = 17 (prime) and t = 16 (power of two; factors restricted to units); all factor pairs 1 <= f1, f2 < t; unwind 12 covers the extended-Euclid loop (<= 6 steps below 17) and the nested gcd recursion
+    // @funcs Evaluator::balance_correction_factors, try_invert_u64_mod, multiply_u64_mod, barrett_reduce_u64, gcd
+    #[kani::proof]
+    fn c02_balance_correction_factors() {
+        let tsel: bool = kani::any();
+        let t: u64 = if tsel { 17 } else { 16 };
+        let m = crate::modulus::verif_v::mk_modulus(t, tsel);
+        let f1: u8 = kani::any(); let f2: u8 = kani::any();
+        kani::assume(f1 >= 1 && (f1 as u64) < t && f2 >= 1 && (f2 as u64) < t);
+        if !tsel { kani::assume(f1 & 1 == 1 && f2 & 1 == 1); }
+        let (f, e1, e2) = Evaluator::balance_correction_factors(f1 as u64, f2 as u64, &m);
+        kani::cover!(e1 != 1 && e2 != 1);
+        assert!(f < t && e1 < t && e2 < t && f != 0);
+        assert!((e1 * f1 as u64) % t == f && (e2 * f2 as u64) % t == f);
+        assert!(crate::util::gcd(e1, t) == 1);
+    }
+
+    // @harness id=C02 tier=quick unwind=12 timeout=1800 fs=4096
+    // @desc BGV addition/subtraction of ciphertexts carrying DIFFERENT correction factors: result residues = e1*a +- e2*b and result factor f, where (f, e1, e2) = balance_correction_factors(f1, f2); so result/f decrypts to a/f1 +- b/f2
+    // @bounds BGV N=2, q={97,113}, t=17; sizes (2,2); all canonical residues; factors f1 != f2 symbolic in 1..16; NTT form (BGV default)
+    // @funcs Evaluator::translate_inplace (factor-balancing branch), polysmallmod::multiply_scalar_inplace_ps, Evaluator::balance_correction_factors
+    // @stubs HeContext::get_context_data -> linear search over the literal chain (HashMap lookup outside the claim); alloc::sync::Arc::drop_slow -> no-op (memory reclamation outside the claim)
+    #[kani::proof]
+    #[kani::stub(crate::context::HeContext::get_context_data, crate::context::verif_v::get_context_data_stub)]
+    #[kani::stub(alloc::sync::Arc::drop_slow, crate::verif_v::arc_drop_slow_noop)]
+    fn c02_add_bgv_unequal_factors() {
+        let ctx = lits::ctx_bgv_n2_2p1();
+        let ev = mk_evaluator(ctx.clone());
+        let pid = *ctx.first_parms_id();
+        let a = sym2::<8>(); let b = sym2::<8>();
+        let f1: u8 = kani::any(); let f2: u8 = kani::any();
+        kani::assume(f1 >= 1 && f1 < 17 && f2 >= 1 && f2 < 17 && f1 != f2);
+        let c1 = ct2(&a, pid, true, f1 as u64, 1.0); let c2 = ct2(&b, pid, true, f2 as u64, 1.0);
+        let sub: bool = kani::any();
+        let mut r = c1.clone();
+        if sub { ev.sub_inplace(&mut r, &c2); } else { ev.add_inplace(&mut r, &c2); }
+        let m = crate::modulus::verif_v::mk_modulus(17, true);
+        let (f, e1, e2) = Evaluator::balance_correction_factors(f1 as u64, f2 as u64, &m);
+        let p: usize = kani::any(); kani::assume(p < 8);
+        let q = q2(p);
+        let ea = (a[p] * e1) % q; let eb = (b[p] * e2) % q;
+        kani::cover!(sub && e1 > 1);
+        assert!(r.correction_factor() == f);
+        assert!(r.data()[p] == if sub { (ea + q - eb) % q } else { (ea + eb) % q });
+        assert!(c2.correction_factor() == f2 as u64 && c2.data()[p] == b[p]);
+        std::mem::forget(ev); std::mem::forget(ctx);
+    }
+
+    // @harness id=C02 tier=quick unwind=12 timeout=1800 fs=4096
+    // @desc BGV multiplication of two size-2 ciphertexts in NTT form: slot-wise c0 = a0*b0, c1 = a0*b1 + a1*b0, c2 = a1*b1 (the coefficients of (a0 + a1 s)(b0 + b1 s)), correction factor = f1*f2 mod t, size 3, second operand unchanged; square gives the same as multiply by itself
+    // @bounds BGV N=2, q={97,113}, t=17; all canonical residues; factors 1..16; one slot position symbolic
+    // @funcs Evaluator::multiply_inplace, Evaluator::bgv_multiply, Evaluator::square_inplace, Evaluator::bgv_square, polysmallmod::dyadic_product_p, polysmallmod::add_inplace_p
+    // @stubs HeContext::get_context_data -> linear search over the literal chain (HashMap lookup outside the claim); alloc::sync::Arc::drop_slow -> no-op (memory reclamation outside the claim)
+    #[kani::proof]
+    #[kani::stub(crate::context::HeContext::get_context_data, crate::context::verif_v::get_context_data_stub)]
+    #[kani::stub(alloc::sync::Arc::drop_slow, crate::verif_v::arc_drop_slow_noop)]
+    fn c02_bgv_multiply_2x2() {
+        let ctx = lits::ctx_bgv_n2_2p1();
+        let ev = mk_evaluator(ctx.clone());
+        let pid = *ctx.first_parms_id();
+        let a = sym2::<8>(); let b = sym2::<8>();
+        let f1: u8 = kani::any(); let f2: u8 = kani::any();
+        kani::assume(f1 >= 1 && f1 < 17 && f2 >= 1 && f2 < 17);
+        let c1 = ct2(&a, pid, true, f1 as u64, 1.0); let c2 = ct2(&b, pid, true, f2 as u64, 1.0);
+        let mut r = c1.clone();
+        ev.multiply_inplace(&mut r, &c2);
+        let p: usize = kani::any(); kani::assume(p < 4);     // position inside one polynomial (modulus-major)
+        let q = q2(p);
+        let (a0, a1, b0, b1) = (a[p], a[4 + p], b[p], b[4 + p]);
+        kani::cover!(a1 != 0 && b1 != 0);
+        assert!(r.size() == 3 && r.data().len() == 12 && r.is_ntt_form());
+        assert!(r.data()[p] == (a0 * b0) % q);
+        assert!(r.data()[4 + p] == (a0 * b1 + a1 * b0) % q);
+        assert!(r.data()[8 + p] == (a1 * b1) % q);
+        assert!(r.correction_factor() == (f1 as u64 * f2 as u64) % 17);
+        assert!(c2.data()[p] == b0 && c2.size() == 2);
+        let mut sq = c1.clone(); ev.square_inplace(&mut sq);
+        assert!(sq.size() == 3 && sq.data()[p] == (a0 * a0) % q && sq.data()[4 + p] == (2 * a0 * a1) % q && sq.data()[8 + p] == (a1 * a1) % q);
+        assert!(sq.correction_factor() == (f1 as u64 * f1 as u64) % 17);
+        std::mem::forget(ev); std::mem::forget(ctx);
+    }
+
+    // @harness id=C03 tier=quick unwind=12 timeout=1800 fs=4096
+    // @desc CKKS multiplication: same slot-wise product as BGV and the recorded scale is EXACTLY the IEEE product of the operand scales; ciphertexts not in NTT form are refused elsewhere
+    // @bounds CKKS N=2, q={97,113}; sizes (2,2); all canonical residues; scales = 2^k1, 2^k2 with k1,k2 in 0..5 (the bound check goes through f64::log2, kept to exact powers of two)
+    // @funcs Evaluator::multiply_inplace, Evaluator::ckks_multiply, Evaluator::is_scale_within_bounds
+    // @stubs HeContext::get_context_data -> linear search over the literal chain (HashMap lookup outside the claim); alloc::sync::Arc::drop_slow -> no-op (memory reclamation outside the claim)
+    #[kani::proof]
+    #[kani::stub(crate::context::HeContext::get_context_data, crate::context::verif_v::get_context_data_stub)]
+    #[kani::stub(alloc::sync::Arc::drop_slow, crate::verif_v::arc_drop_slow_noop)]
+    fn c03_ckks_multiply_scale() {
+        let ctx = lits::ctx_ckks_n2_2p1();
+        let ev = mk_evaluator(ctx.clone());
+        let pid = *ctx.first_parms_id();
+        let a = sym2::<8>(); let b = sym2::<8>();
+        let k1: u8 = kani::any(); let k2: u8 = kani::any(); kani::assume(k1 < 6 && k2 < 6);
+        let s1 = (1u64 << k1) as f64; let s2 = (1u64 << k2) as f64;
+        let c1 = ct2(&a, pid, true, 1, s1); let c2 = ct2(&b, pid, true, 1, s2);
+        let mut r = c1.clone();
+        ev.multiply_inplace(&mut r, &c2);
+        let p: usize = kani::any(); kani::assume(p < 4);
+        let q = q2(p);
+        kani::cover!(k1 + k2 > 6);
+        assert!(r.scale().to_bits() == (s1 * s2).to_bits());
+        assert!(r.size() == 3 && r.data()[4 + p] == (a[p] * b[4 + p] + a[4 + p] * b[p]) % q);
+        assert!(r.correction_factor() == 1 && *r.parms_id() == pid);
+        std::mem::forget(ev); std::mem::forget(ctx);
+    }
+
+    fn crt2(r0: u64, r1: u64) -> u64 { // x < 97*113 with x = r0 mod 97, x = r1 mod 113; 113^-1 mod 97 = 91
+        r1 + 113 * ((((r0 + 97 * 2 - r1 % 97) % 97) * 91) % 97)
+    }
+
+    // @harness id=C05 tier=quick unwind=12 timeout=1800 fs=4096
+    // @desc BFV mod_switch_to_next (value-returning and in-place forms): the result sits exactly on the next level, every remaining residue is round(x / q_last) mod q_0 of the CRT-composed input coefficient, size/form kept, scale 1, correction factor 1; the input is unchanged
+    // @bounds BFV N=2, chain {97,113} -> {97}, t=17; size 2 and 3 (two cases); all canonical residues; one coefficient position symbolic
+    // @funcs Evaluator::mod_switch_to_next_new, Evaluator::mod_switch_to_next_inplace, Evaluator::mod_switch_scale_to_next_internal, RNSTool::divide_and_round_q_last_inplace, Ciphertext::resize
+    // @stubs HeContext::get_context_data -> linear search over the literal chain (HashMap lookup outside the claim); alloc::sync::Arc::drop_slow -> no-op (memory reclamation outside the claim)
+    #[kani::proof]
+    #[kani::stub(crate::context::HeContext::get_context_data, crate::context::verif_v::get_context_data_stub)]
+    #[kani::stub(alloc::sync::Arc::drop_slow, crate::verif_v::arc_drop_slow_noop)]
+    fn c05_bfv_mod_switch_to_next() {
+        let ctx = lits::ctx_bfv_n2_2p1();
+        let ev = mk_evaluator(ctx.clone());
+        let pid = *ctx.first_parms_id(); let last = *ctx.last_parms_id();
+        let c: bool = kani::any();
+        if c { bfv_switch_case::<8>(&ev, pid, last) } else { bfv_switch_case::<12>(&ev, pid, last) }
+        std::mem::forget(ev); std::mem::forget(ctx);
+    }
+    fn bfv_switch_case<const L: usize>(ev: &Evaluator, pid: ParmsID, last: ParmsID) {
+        let a = sym2::<L>();
+        let src = ct2(&a, pid, false, 1, 1.0);
+        let r = ev.mod_switch_to_next_new(&src);
+        let mut r2 = src.clone(); ev.mod_switch_to_next_inplace(&mut r2);
+        let size = L / 4;
+        let poly: usize = kani::any(); let k: usize = kani::any(); kani::assume(poly < size && k < 2);
+        let x = crt2(a[poly * 4 + k], a[poly * 4 + 2 + k]);
+        let e = ((x + 56) / 113) % 97;
+        kani::cover!(poly == size - 1 && e != 0);
+        assert!(*r.parms_id() == last && *r2.parms_id() == last && pid != last);
+        assert!(r.size() == size && r.coeff_modulus_size() == 1 && r.poly_modulus_degree() == 2 && r.data().len() == size * 2);
+        assert!(r.data()[poly * 2 + k] == e && r2.data()[poly * 2 + k] == e);
+        assert!(!r.is_ntt_form() && r.scale() == 1.0 && r.correction_factor() == 1);
+        assert!(r2.size() == size && r2.data().len() == size * 2 && r2.scale() == 1.0 && r2.correction_factor() == 1);
+        assert!(src.data()[poly * 4 + k] == a[poly * 4 + k] && *src.parms_id() == pid);
+    }
+
+    // @harness id=C05 tier=quick unwind=12 timeout=1800 fs=4096
+    // @desc CKKS: mod_switch_to_next DROPS the last prime (residues of the remaining primes unchanged, scale unchanged) while rescale_to_next divides by it (scale = old / q_last exactly, data = NTT-form rounding division); both land exactly on the next level
+    // @bounds CKKS N=2, chain {97,113} -> {97}; size 2; all canonical residues; scale 2^k, k in 1..6
+    // @funcs Evaluator::mod_switch_to_next_new, Evaluator::mod_switch_drop_to_next_internal, Evaluator::rescale_to_next_new, Evaluator::mod_switch_scale_to_next_internal, RNSTool::divide_and_round_q_last_ntt_inplace
+    // @stubs HeContext::get_context_data -> linear search over the literal chain (HashMap lookup outside the claim); alloc::sync::Arc::drop_slow -> no-op (memory reclamation outside the claim)
+    #[kani::proof]
+    #[kani::stub(crate::context::HeContext::get_context_data, crate::context::verif_v::get_context_data_stub)]
+    #[kani::stub(alloc::sync::Arc::drop_slow, crate::verif_v::arc_drop_slow_noop)]
+    fn c05_ckks_drop_and_rescale() {
+        let ctx = lits::ctx_ckks_n2_2p1();
+        let ev = mk_evaluator(ctx.clone());
+        let pid = *ctx.first_parms_id(); let last = *ctx.last_parms_id();
+        let a = sym2::<8>();
+        let k: u8 = kani::any(); kani::assume(k >= 1 && k < 7);
+        let s = (1u64 << k) as f64;
+        let src = ct2(&a, pid, true, 1, s);
+        let d = ev.mod_switch_to_next_new(&src);
+        let poly: usize = kani::any(); let j: usize = kani::any(); kani::assume(poly < 2 && j < 2);
+        assert!(*d.parms_id() == last && d.size() == 2 && d.data().len() == 4 && d.is_ntt_form());
+        assert!(d.data()[poly * 2 + j] == a[poly * 4 + j]);
+        assert!(d.scale().to_bits() == s.to_bits());
+        let r = ev.rescale_to_next_new(&src);
+        // oracle for the data: the RNS kernel (decided separately in C10) applied to each polynomial
+        let cd = ctx.first_context_data().unwrap();
+        let mut p0 = [a[poly * 4], a[poly * 4 + 1], a[poly * 4 + 2], a[poly * 4 + 3]];
+        cd.rns_tool().divide_and_round_q_last_ntt_inplace(&mut p0, cd.small_ntt_tables());
+        kani::cover!(poly == 1 && p0[j] != 0);
+        assert!(*r.parms_id() == last && r.size() == 2 && r.data().len() == 4 && r.is_ntt_form());
+        assert!(r.data()[poly * 2 + j] == p0[j]);
+        assert!(r.scale().to_bits() == (s / 113.0).to_bits());
+        std::mem::forget(ev); std::mem::forget(ctx); std::mem::forget(cd);
+    }
+
+    // @harness id=C05 tier=quick unwind=12 timeout=1800 fs=4096
+    // @desc BGV mod_switch_to_next: lands on the next level, data = the BGV divide-by-last-prime kernel per polynomial, and the correction factor is multiplied by q_last^-1 mod t (bookkeeping that keeps the plaintext unchanged)
+    // @bounds BGV N=2, chain {97,113} -> {97}, t=17; size 2; all canonical residues; correction factor 1..16
+    // @funcs Evaluator::mod_switch_to_next_new, Evaluator::mod_switch_scale_to_next_internal, RNSTool::mod_t_and_divide_q_last_ntt_inplace, RNSTool::inv_q_last_mod_t
+    // @stubs HeContext::get_context_data -> linear search over the literal chain (HashMap lookup outside the claim); alloc::sync::Arc::drop_slow -> no-op (memory reclamation outside the claim)
+    #[kani::proof]
+    #[kani::stub(crate::context::HeContext::get_context_data, crate::context::verif_v::get_context_data_stub)]
+    #[kani::stub(alloc::sync::Arc::drop_slow, crate::verif_v::arc_drop_slow_noop)]
+    fn c05_bgv_mod_switch_to_next() {
+        let ctx = lits::ctx_bgv_n2_2p1();
+        let ev = mk_evaluator(ctx.clone());
+        let pid = *ctx.first_parms_id(); let last = *ctx.last_parms_id();
+        let a = sym2::<8>();
+        let f: u8 = kani::any(); kani::assume(f >= 1 && f < 17);
+        let src = ct2(&a, pid, true, f as u64, 1.0);
+        let r = ev.mod_switch_to_next_new(&src);
+        let poly: usize = kani::any(); let j: usize = kani::any(); kani::assume(poly < 2 && j < 2);
+        let cd = ctx.first_context_data().unwrap();
+        let mut p0 = [a[poly * 4], a[poly * 4 + 1], a[poly * 4 + 2], a[poly * 4 + 3]];
+        cd.rns_tool().mod_t_and_divide_q_last_ntt_inplace(&mut p0, cd.small_ntt_tables());
+        kani::cover!(p0[j] != 0);
+        assert!(*r.parms_id() == last && r.size() == 2 && r.data().len() == 4 && r.is_ntt_form() && r.scale() == 1.0);
+        assert!(r.data()[poly * 2 + j] == p0[j]);
+        // 113 = 11 mod 17, 11^-1 = 14 mod 17
+        assert!(r.correction_factor() == (f as u64 * 14) % 17);
+        assert!((r.correction_factor() * 113) % 17 == f as u64 % 17);
+        std::mem::forget(ev); std::mem::forget(ctx); std::mem::forget(cd);
+    }
+
+    // @harness id=C05 tier=quick unwind=8 timeout=1800 fs=4096 kf=rescale_to_never_terminates
+    // @desc rescale_to(ct, target) TERMINATES and ends exactly on the requested level (here: one level down)
+    // @bounds CKKS N=2, chain {97,113} -> {97}; source = first level, target = last level; unwind 8 > chain length + 1: a loop that does not end within the chain length fails the unwinding assertion
+    // @funcs Evaluator::rescale_to_new, Evaluator::rescale_to
+    // @expect pass-or-term
+    // @stubs HeContext::get_context_data -> linear search over the literal chain (HashMap lookup outside the claim); alloc::sync::Arc::drop_slow -> no-op (memory reclamation outside the claim)
+    #[kani::proof]
+    #[kani::stub(crate::context::HeContext::get_context_data, crate::context::verif_v::get_context_data_stub)]
+    #[kani::stub(alloc::sync::Arc::drop_slow, crate::verif_v::arc_drop_slow_noop)]
+    fn c05_rescale_to_terminates() {
+        let ctx = lits::ctx_ckks_n2_2p1();
+        let ev = mk_evaluator(ctx.clone());
+        let pid = *ctx.first_parms_id(); let last = *ctx.last_parms_id();
+        let a = sym2::<8>();
+        let src = ct2(&a, pid, true, 1, 64.0);
+        let r = ev.rescale_to_new(&src, &last);
+        kani::cover!(true);
+        assert!(*r.parms_id() == last && r.size() == 2);
+        assert!(r.scale().to_bits() == (64.0f64 / 113.0).to_bits());
+        std::mem::forget(ev); std::mem::forget(ctx);
+    }
+
+    // @harness id=C05 tier=quick unwind=8 timeout=1800 fs=4096
+    // @desc requests that cannot be served are refused (panic), never computed: mod switching past the last level, switching upward to a higher level, rescaling a BFV ciphertext
+    // @bounds BFV N=2 chain {97,113} -> {97}; the three requests chosen symbolically; all canonical residues
+    // @funcs Evaluator::mod_switch_to_next_inplace, Evaluator::mod_switch_to_inplace, Evaluator::rescale_to_next_inplace
+    // @expect panic:Invalid argument|End of modulus switching chain|higher level|only supported for CKKS
+    // @stubs HeContext::get_context_data -> linear search over the literal chain (HashMap lookup outside the claim); alloc::sync::Arc::drop_slow -> no-op (memory reclamation outside the claim)
+    #[kani::proof]
+    #[kani::stub(crate::context::HeContext::get_context_data, crate::context::verif_v::get_context_data_stub)]
+    #[kani::stub(alloc::sync::Arc::drop_slow, crate::verif_v::arc_drop_slow_noop)]
+    fn c05_refusals() {
+        let ctx = lits::ctx_bfv_n2_2p1();
+        let ev = mk_evaluator(ctx.clone());
+        let first = *ctx.first_parms_id(); let last = *ctx.last_parms_id();
+        let c: u8 = kani::any();
+        match c {
+            0 => { let a = sym1::<4>(); let mut x = ct1(&a, last, false, 1, 1.0); ev.mod_switch_to_next_inplace(&mut x); }
+            1 => { let a = sym1::<4>(); let mut x = ct1(&a, last, false, 1, 1.0); ev.mod_switch_to_inplace(&mut x, &first); }
+            _ => { let a = sym2::<8>(); let mut x = ct2(&a, first, false, 1, 1.0); ev.rescale_to_next_inplace(&mut x); }
+        }
+        kani::cover!(true, "AFTER: refused operation returned");
+    }
+
+    // @harness id=C06 tier=quick unwind=10 timeout=1800 fs=4096
+    // @desc the three API forms of addition (in-place, destination-argument with a destination pre-filled with a DIFFERENT-sized ciphertext, value-returning) give field-wise identical results and leave both read-only operands unchanged; the result is valid for the context
+    // @bounds BFV N=2, q={97}; sizes (2,3); destination pre-filled with an arbitrary size-3 NTT-flagged ciphertext; all canonical residues
+    // @funcs Evaluator::add, Evaluator::add_new, Evaluator::add_inplace, Ciphertext::is_valid_for
+    // @stubs HeContext::get_context_data -> linear search over the literal chain (HashMap lookup outside the claim); alloc::sync::Arc::drop_slow -> no-op (memory reclamation outside the claim)
+    #[kani::proof]
+    #[kani::stub(crate::context::HeContext::get_context_data, crate::context::verif_v::get_context_data_stub)]
+    #[kani::stub(alloc::sync::Arc::drop_slow, crate::verif_v::arc_drop_slow_noop)]
+    fn c06_add_forms_agree() {
+        let ctx = lits::ctx_bfv_n2_1p();
+        let ev = mk_evaluator(ctx.clone());
+        let pid = *ctx.first_parms_id();
+        let a = sym1::<4>(); let b = sym1::<6>(); let g = sym1::<6>();
+        let c1 = ct1(&a, pid, false, 1, 1.0); let c2 = ct1(&b, pid, false, 1, 1.0);
+        let mut dest = ct1(&g, pid, true, 1, 1.0);
+        ev.add(&c1, &c2, &mut dest);
+        let rn = ev.add_new(&c1, &c2);
+        let mut ri = c1.clone(); ev.add_inplace(&mut ri, &c2);
+        let p: usize = kani::any(); kani::assume(p < 6);
+        kani::cover!(g[p] != b[p]);
+        assert!(dest.size() == 3 && rn.size() == 3 && ri.size() == 3 && dest.data().len() == 6 && rn.data().len() == 6 && ri.data().len() == 6);
+        assert!(dest.data()[p] == rn.data()[p] && rn.data()[p] == ri.data()[p]);
+        assert!(dest.is_ntt_form() == rn.is_ntt_form() && rn.is_ntt_form() == ri.is_ntt_form() && !rn.is_ntt_form());
+        assert!(*dest.parms_id() == pid && dest.scale() == 1.0 && dest.correction_factor() == 1);
+        assert!(c1.size() == 2 && c1.data().len() == 4 && c2.data()[p] == b[p] && (p >= 4 || c1.data()[p] == a[p]));
+        assert!(rn.is_valid_for(&ctx));
+        std::mem::forget(ev); std::mem::forget(ctx);
+    }
+
+    // @harness id=C06 tier=quick unwind=12 timeout=1800 fs=4096 kf=mod_switch_dest_stale_metadata
+    // @desc mod_switch_to_next with a destination argument that previously held another ciphertext gives the same result (data AND scale / correction-factor metadata) as the value-returning form, and the result is valid for the context
+    // @bounds BFV N=2, chain {97,113} -> {97}; size 2; destination pre-filled with a ciphertext whose scale and correction-factor fields are arbitrary; all canonical residues
+    // @funcs Evaluator::mod_switch_to_next, Evaluator::mod_switch_to_next_new, Ciphertext::is_valid_for
+    // @stubs HeContext::get_context_data -> linear search over the literal chain (HashMap lookup outside the claim); alloc::sync::Arc::drop_slow -> no-op (memory reclamation outside the claim)
+    #[kani::proof]
+    #[kani::stub(crate::context::HeContext::get_context_data, crate::context::verif_v::get_context_data_stub)]
+    #[kani::stub(alloc::sync::Arc::drop_slow, crate::verif_v::arc_drop_slow_noop)]
+    fn c06_mod_switch_forms_agree() {
+        let ctx = lits::ctx_bfv_n2_2p1();
+        let ev = mk_evaluator(ctx.clone());
+        let pid = *ctx.first_parms_id();
+        let a = sym2::<8>(); let g = sym2::<8>();
+        let src = ct2(&a, pid, false, 1, 1.0);
+        let sb: u64 = kani::any(); let gs = f64::from_bits(sb); kani::assume(gs.is_finite() && gs > 0.0);
+        let gcf: u64 = kani::any();
+        let mut dest = ct2(&g, pid, false, gcf, gs);
+        ev.mod_switch_to_next(&src, &mut dest);
+        let rn = ev.mod_switch_to_next_new(&src);
+        let p: usize = kani::any(); kani::assume(p < 4);
+        kani::cover!(gcf != 1 && gs != 1.0);
+        assert!(dest.data().len() == 4 && dest.data()[p] == rn.data()[p] && *dest.parms_id() == *rn.parms_id());
+        assert!(dest.scale().to_bits() == rn.scale().to_bits() && dest.correction_factor() == rn.correction_factor());
+        assert!(dest.is_valid_for(&ctx));
+        std::mem::forget(ev); std::mem::forget(ctx);
+    }
+
+    // @harness id=C06 tier=quick unwind=10 timeout=1800 fs=4096
+    // @desc an operand with exactly one corrupted field (a residue >= q, a foreign parms id, size 1 or 17, wrong degree, wrong modulus count, scale != 1 in BFV, correction factor != 1 in BFV, an unexpanded seed marker, buffer length mismatch) makes add_inplace refuse (panic) instead of computing
+    // @bounds BFV N=2, q={97}; second operand corrupted in one symbolically chosen way; first operand valid; all other residues canonical
+    // @funcs Evaluator::add_inplace, Evaluator::check_ciphertext, Ciphertext::is_valid_for, Ciphertext::is_metadata_valid_for, Ciphertext::is_buffer_valid, Ciphertext::contains_seed
+    // @expect panic:Invalid argument
+    // @stubs HeContext::get_context_data -> linear search over the literal chain (HashMap lookup outside the claim); alloc::sync::Arc::drop_slow -> no-op (memory reclamation outside the claim)
+    #[kani::proof]
+    #[kani::stub(crate::context::HeContext::get_context_data, crate::context::verif_v::get_context_data_stub)]
+    #[kani::stub(alloc::sync::Arc::drop_slow, crate::verif_v::arc_drop_slow_noop)]
+    fn c06_add_refuses_corrupted_operand() {
+        let ctx = lits::ctx_bfv_n2_1p();
+        let ev = mk_evaluator(ctx.clone());
+        let pid = *ctx.first_parms_id();
+        let a = sym1::<4>(); let mut b = sym1::<4>();
+        let mut c1 = ct1(&a, pid, false, 1, 1.0);
+        let which: u8 = kani::any();
+        let bad: u8 = kani::any();
+        let c2 = match which {
+            0 => { kani::assume(bad >= 97); let k: usize = kani::any(); kani::assume(k < 4); b[k] = bad as u64; ct1(&b, pid, false, 1, 1.0) }
+            1 => { let mut fp = pid; fp[0] ^= 1 + bad as u64; ct1(&b, fp, false, 1, 1.0) }
+            2 => mk_ciphertext(1, 1, 2, vec![b[0], b[1]], pid, 1.0, false, 1),
+            3 => mk_ciphertext(2, 1, 4, b.to_vec(), pid, 1.0, false, 1),
+            4 => mk_ciphertext(2, 2, 2, b.to_vec(), pid, 1.0, false, 1),
+            5 => ct1(&b, pid, false, 1, 2.0),
+            6 => { kani::assume(bad != 1); ct1(&b, pid, false, bad as u64, 1.0) }
+            7 => { b[2] = crate::text::CIPHERTEXT_SEED_FLAG; ct1(&b, pid, false, 1, 1.0) }
+            _ => mk_ciphertext(2, 1, 2, vec![b[0], b[1], b[2]], pid, 1.0, false, 1),
+        };
+        ev.add_inplace(&mut c1, &c2);
+        kani::cover!(true, "AFTER: corrupted operand accepted");
     }
 
     #[cfg(test)] include!("/verif/.build/playback/evaluator_v.rs");
